@@ -749,6 +749,23 @@ fn run_history(h: &[Req], verbose: bool) -> Vec<String> {
             return out;
         }
     }
+    // finishing: `build` is rejected (panics) exactly when changes are pending; otherwise the definition
+    // holds the closed variants
+    let pending = !m.to_add.is_empty() || !m.to_remove.is_empty();
+    let built = std::panic::catch_unwind(std::panic::AssertUnwindSafe(move || b.build()));
+    if verbose { println!("  build -> {}", if built.is_ok() { "definition" } else { "rejected (panic)" }); }
+    match built {
+        Err(_) => if !pending { out.push("finish: C12 build rejected although no change is pending".to_owned()); },
+        Ok(def) => {
+            if pending {
+                out.push("finish: C12 build accepted with unclosed changes (finishing with unclosed changes must be rejected)".to_owned());
+            }
+            let got: Vec<Vec<usize>> = def.variants().map(|v| v.data().map(idx).collect()).collect();
+            if got != m.variants {
+                out.push(format!("finish: C12 built definition has variants {:?}, expected {:?}", got, m.variants));
+            }
+        }
+    }
     out
 }
 
@@ -852,6 +869,36 @@ fn cmd_resolver(_args: &[String]) {
         check(&format!("add_datum_override::<Vec<()>>(type_name:{} size:{} align:{} allow_uninit:{})", mask & 1 != 0, mask & 2 != 0, mask & 4 != 0, mask & 8 != 0),
             b[id].details(), if mask & 1 != 0 { "Over" } else { &r.name }, if mask & 2 != 0 { 11 } else { r.size }, if mask & 4 != 0 { 32 } else { r.align }, mask & 8 != 0);
     }
+    // the typed entry points over a matrix of types (plain, compound, heap-owning, odd-sized, over-aligned,
+    // zero-size with alignment 1 / 8 / 16): the recorded information is the resolver's answer, never the host's
+    let mut evaluations = 3 + 16;
+    macro_rules! typed {
+        ($($t:ty),*) => {$(
+            let r = Synth.type_info::<$t>();
+            let id = b.add_datum::<$t, _>(format!("f{}", k)).unwrap();
+            k += 1;
+            check(concat!("add_datum::<", stringify!($t), ">"), b[id].details(), &r.name, r.size, r.align, false);
+            for mask in [0u32, 2, 4, 6] {
+                let ov = DatumDefinitionOverride { type_name: None, size: if mask & 2 != 0 { Some(11) } else { None }, align: if mask & 4 != 0 { Some(32) } else { None }, allow_uninit: None };
+                let id = b.add_datum_override::<$t, _>(format!("f{}", k), ov).unwrap();
+                k += 1;
+                check(&format!("add_datum_override::<{}>(size:{} align:{})", stringify!($t), mask & 2 != 0, mask & 4 != 0),
+                    b[id].details(), &r.name, if mask & 2 != 0 { 11 } else { r.size }, if mask & 4 != 0 { 32 } else { r.align }, false);
+            }
+            evaluations += 5;
+        )*};
+    }
+    macro_rules! typed_copy {
+        ($($t:ty),*) => {$(
+            let r = Synth.type_info::<$t>();
+            let id = b.add_datum_allow_uninit::<$t, _>(format!("f{}", k)).unwrap();
+            k += 1;
+            check(concat!("add_datum_allow_uninit::<", stringify!($t), ">"), b[id].details(), &r.name, r.size, r.align, true);
+            evaluations += 1;
+        )*};
+    }
+    typed!(u8, u64, u128, [u8; 3], (u64, u8), String, Vec<u32>, Box<[u8]>, Option<String>, (), [u64; 0], [u128; 0], std::marker::PhantomData<u128>, std::marker::PhantomData<String>);
+    typed_copy!(u8, u64, u128, [u8; 3], (u64, u8), (), [u64; 0], [u128; 0], std::marker::PhantomData<u128>);
     // copy_datum copies what was recorded, it does not resolve again
     let mut other = NativeRecordDefinitionBuilder::new(truc::record::type_resolver::HostTypeResolver);
     let vid = b.close_record_variant_with(append_data);
@@ -861,7 +908,8 @@ fn cmd_resolver(_args: &[String]) {
     let id = other.copy_datum(f1).unwrap();
     let (n, s, a, u) = src.unwrap();
     check("copy_datum", other[id].details(), &n, s, a, u);
-    let res = json!({"violations": out});
+    evaluations += 1;
+    let res = json!({"violations": out, "evaluations": evaluations});
     println!("{}", serde_json::to_string_pretty(&res).unwrap());
     for c in &out { println!("REPLAY: violated {}", c); }
     exit(if out.is_empty() { 0 } else { 1 });
